@@ -18,6 +18,12 @@ ASSUMPTIONS = [
 ]
 
 
+def canon_signature(sig):
+    from vf import htmlcmp
+
+    return htmlcmp.canon(sig)
+
+
 def universe_hash():
     return U.content_hash()
 
